@@ -151,6 +151,9 @@ def Sticky.allowed (h : Seen) (e : MEv) (s : Sticky) : Bool :=
   let old := h.get e.ino e.path
   (!s.created || old.created) && (!s.modified || old.modified) && (!s.metaMod || old.metaMod)
 
+/-- the native events of an operation with sticky flags added, event by event -/
+def stickAll (evs : List MEv) (ss : List Sticky) : List MEv := List.zipWith MEv.stick evs ss
+
 /- ---------------------------- the contract of the FSEvents layer ---------------------------- -/
 
 /-- the events one operation must produce on macOS (recursive watch), and whether the emitter stops -/
@@ -201,6 +204,24 @@ def MSys.run (s : MSys) : List Op → MSys × List (List PEv)
     let (s1, evs) := s.op op
     let (s2, more) := s1.run rest
     (s2, evs :: more)
+
+/-- a drained history in which every operation's native events carry the given extra (sticky) flags -/
+def MSys.runSticky (s : MSys) : List (Op × List Sticky) → MSys × List (List PEv)
+  | [] => (s, [])
+  | (op, ss) :: rest =>
+    let fs1 := fsAfter s.fs op
+    if s.st.stopped then
+      let r := ({ s with fs := fs1 } : MSys).runSticky rest
+      (r.1, [] :: r.2)
+    else
+      let b := emitBatch fs1 s.recursive s.st (stickAll (macEvents s.fs op) ss)
+      let r := ({ s with fs := fs1, st := b.1 } : MSys).runSticky rest
+      (r.1, b.2 :: r.2)
+
+/-- one list of sticky choices per operation, as long as the operation's list of native events -/
+def stickyLens (fs : FS) : List (Op × List Sticky) → Prop
+  | [] => True
+  | (op, ss) :: rest => ss.length = (macEvents fs op).length ∧ stickyLens (fsAfter fs op) rest
 
 def macContractRun (fs : FS) : List Op → List (List PEv)
   | [] => []
